@@ -95,6 +95,9 @@ func main() {
 		}
 	}
 	o.Distinct = len(seen)
+	if m := workload.SharedIntact(); m != "" {
+		o.Mismatches = append(o.Mismatches, m)
+	}
 	b, _ := json.Marshal(o)
 	fmt.Println(string(b))
 }
